@@ -35,7 +35,7 @@ fn main() {
     let budget_s = std::env::var("VERIF_BUDGET_S")
         .ok()
         .and_then(|s| s.parse().ok())
-        .unwrap_or(tier.pick(45.0, 840.0));
+        .unwrap_or(tier.pick(75.0, 840.0));
     let ctx = Ctx { prop: prop.clone(), tier, seed, start: Instant::now(), budget_s };
     if std::env::var("VERIF_PANIC").is_err() {
         silence_panics();
